@@ -364,7 +364,7 @@ void differential(const char *point, const Obs &o, const Result &R, const std::v
     if (i == n) k = key_for_features(R.term_features, reqs[n], R.term_framing, 1);
     if (!k && n > 0) k = key_for_features(R.msgs[n - 1].features, reqs[n - 1], R.msgs[n - 1].framing, R.msgs[n - 1].cl);
     switch (R.term) {
-      case h9112c::T_REJECT: VERIF_FAIL(key_for_reason(R.reason), "[%s] the response for request %zu must be treated as an unrecoverable error (%s) but request %zu completed with a response: %s", point, n, R.reason.c_str(), i, show(o[i]).c_str());
+      case h9112c::T_REJECT: VERIF_FAIL((R.term_features & h9112c::C_CONNECT_OTHER) ? K_CONNECTBODY /* the framing fields of a refused CONNECT are not even looked at */ : key_for_reason(R.reason), "[%s] the response for request %zu must be treated as an unrecoverable error (%s) but request %zu completed with a response: %s", point, n, R.reason.c_str(), i, show(o[i]).c_str());
       case h9112c::T_INCOMPLETE: VERIF_FAIL(k ? k : "C24/delivered-incomplete", "[%s] the stream ends inside the response for request %zu (%s) but request %zu completed with a response: %s", point, n, R.reason.c_str(), i, show(o[i]).c_str());
       case h9112c::T_NOREUSE: if (key_for_reuse(R.msgs[n - 1])) k = key_for_reuse(R.msgs[n - 1]);
         VERIF_FAIL(k ? k : "C24/reused-after-close", "[%s] response %zu carried / answered the close connection option, so the connection must not serve another request (RFC 9112 9.6), but request %zu completed with a response taken from the bytes that followed: %s", point, n - 1, i, show(o[i]).c_str());
@@ -375,7 +375,7 @@ void differential(const char *point, const Obs &o, const Result &R, const std::v
 }
 }  // namespace
 
-static void quiet_log(int, const char *) {}
+static void quiet_log(int sev, const char *msg) { if (sev >= EVENT_LOG_ERR) fprintf(stderr, "[err] %s\n", msg); }
 extern "C" int LLVMFuzzerInitialize(int *, char ***) {
   sim_mem_install();
   signal(SIGPIPE, SIG_IGN);            // an application that writes to sockets with libevent has to do this (the client may write to a closed peer)
@@ -419,14 +419,14 @@ extern "C" int LLVMFuzzerTestOneInput(const uint8_t *data, size_t size) {
     for (const Result *R : {&RA, &RB}) {
       if (hit) break;
       for (size_t i = 0; i < R->msgs.size(); i++) { const Resp &m = R->msgs[i];
-        const char *k = key_for_features(m.features, reqs[i], m.framing, m.cl);
-        if (!k && (m.features & h9112c::C_HTAB_OWS)) k = K_HTAB;
-        if (!k && m.must_not_reuse && m.end < stream.size() && i + 1 < reqs.size()) k = key_for_reuse(m);
-        if (k && verif_known(k)) { hit = k; at = m.begin; break; } }
+        const char *cand[3] = {key_for_features(m.features, reqs[i], m.framing, m.cl), (m.features & h9112c::C_HTAB_OWS) ? K_HTAB : nullptr,
+                               (m.must_not_reuse && m.end < stream.size() && i + 1 < reqs.size()) ? key_for_reuse(m) : nullptr};
+        for (const char *k : cand) if (k && verif_known(k)) { hit = k; at = m.begin; break; }
+        if (hit) break; }
       size_t n = R->msgs.size();
       if (!hit && n < reqs.size() && R->term != h9112c::T_END && R->term != h9112c::T_NOREUSE) {
         const char *k = key_for_features(R->term_features, reqs[n], R->term_framing, 1);
-        if (!k && R->term == h9112c::T_REJECT) k = key_for_reason(R->reason);
+        if (!k && R->term == h9112c::T_REJECT) k = (R->term_features & h9112c::C_CONNECT_OTHER) ? K_CONNECTBODY : key_for_reason(R->reason);
         if (k && R->term_pos < stream.size() && verif_known(k)) { hit = k; at = R->term_pos; } }
     }
     if (!hit) break;
